@@ -393,6 +393,7 @@ def do_compose(nl, path, inp):
 
 def case_body(inp, tmpdir):
     warnings.simplefilter("ignore")
+    gc.freeze()
     res = {"status": "ok"}
     try:
         nl = build(inp["source"], tmpdir)
@@ -765,7 +766,8 @@ def run(ctx):
         "for Verilog/EBLIF the model writer is a pure function, so non-interference holds by construction in the model and rests on the before/after snapshot comparison on the implementation",
     ]
     ctx.partial_notes += ["partial: file completeness/closing is observed, not proved"]
-    deadline = time.time() + max(30.0, ctx.time_left() - ctx.scale(25, 120))
+    deadline = time.time() + (max(30.0, min(ctx.time_left() - 25, 65.0 - (time.time() - ctx.t0))) if ctx.tier == "quick"
+                              else max(30.0, ctx.time_left() - 120))
     shard.run_shards(ctx, shard_worker, [(c, deadline, i) for i, c in enumerate(chunks) if c])
 
 
